@@ -70,6 +70,8 @@ pub struct Route {
     pub free_std: u8,
     /// pipelines: the scripted child is the *last* command (a pass-through command feeds it), not the first
     pub child_last: bool,
+    /// Exec entries: a stream that is not captured is left alone (inherited) instead of being sent to /dev/null
+    pub leave_uncaptured_alone: bool,
 }
 
 #[derive(Clone, Debug)]
@@ -271,8 +273,11 @@ pub fn exchange(ctx: &mut Ctx, cfg: &Xcfg) -> Xres {
             if let Some(i) = &cfg.input {
                 e = e.stdin(i.clone());
             }
-            e = if cfg.out_piped { e.stdout(Redirection::Pipe) } else { e.stdout(NullFile) };
-            e = if cfg.err_merge { e.stderr(Redirection::Merge) } else if cfg.err_piped { e.stderr(Redirection::Pipe) } else { e.stderr(NullFile) };
+            // (left alone only when the other output is configured: with nothing configured capture() pipes stdout itself)
+            // and only when the caller has the standard descriptors: an inherited closed descriptor makes the script's writes fail
+            let alone = cfg.route.leave_uncaptured_alone && (cfg.out_piped != cfg.err_piped) && !cfg.err_merge && cfg.route.free_std == 0;
+            e = if cfg.out_piped { e.stdout(Redirection::Pipe) } else if alone { e } else { e.stdout(NullFile) };
+            e = if cfg.err_merge { e.stderr(Redirection::Merge) } else if cfg.err_piped { e.stderr(Redirection::Pipe) } else if alone { e } else { e.stderr(NullFile) };
             if cfg.route.via_clone {
                 e = e.clone();
             }
